@@ -348,6 +348,42 @@ func init() {
 				fmt.Fprintf(&out, "(%s, %s)", leanStr(d[0]), d[1])
 			}
 			out.WriteString("]\n\n")
+			// the decimal64 precision bound and the NaN refusal of GnmiTypedValueToNativeType
+			if v, kind, ok := constValue(vf, "maxDecimal64Precision"); ok && kind == token.INT {
+				fmt.Fprintf(&out, "/-- `maxDecimal64Precision` in %s: a DecimalVal with a larger precision is refused -/\ndef maxDecimalPrecision%s : Option Nat := some %s\n\n", rel, up, v)
+			} else {
+				fmt.Fprintf(&out, "/-- %s has no `maxDecimal64Precision`: no precision is refused -/\ndef maxDecimalPrecision%s : Option Nat := none\n\n", rel, up)
+			}
+			nanRefused := false
+			if fd := findFunc(vf, "GnmiTypedValueToNativeType"); fd != nil {
+				ast.Inspect(fd.Body, func(n ast.Node) bool {
+					cc, ok := n.(*ast.CaseClause)
+					if !ok || len(cc.List) != 1 || exprString(cc.List[0]) != "*gnmi.TypedValue_FloatVal" {
+						return true
+					}
+					for _, st := range cc.Body {
+						if is, ok := st.(*ast.IfStmt); ok {
+							isNaN, returnsErr := false, false
+							ast.Inspect(is.Cond, func(m ast.Node) bool {
+								if c, ok := m.(*ast.CallExpr); ok && exprString(c.Fun) == "math.IsNaN" {
+									isNaN = true
+								}
+								return true
+							})
+							for _, b := range is.Body.List {
+								if r, ok := b.(*ast.ReturnStmt); ok && len(r.Results) == 2 && exprString(r.Results[0]) == "nil" {
+									returnsErr = true
+								}
+							}
+							if isNaN && returnsErr {
+								nanRefused = true
+							}
+						}
+					}
+					return false
+				})
+			}
+			fmt.Fprintf(&out, "/-- does the FloatVal case of `GnmiTypedValueToNativeType` in %s return an error for `math.IsNaN`? -/\ndef floatNaNRefused%s : Bool := %v\n\n", rel, up, nanRefused)
 			trel := "pkg/utils/" + api + "/tree/tree.go"
 			tf := parseFile(trel)
 			tbl := leafValueTable(findFunc(tf, "handleLeafValue"), trel, consts)
